@@ -157,6 +157,14 @@ func TestVerifC09(t *testing.T) {
 					continue
 				}
 				for _, cr := range p.Creators() {
+					switch cr.(type) {
+					case *pub.Actor, *pub.Failure:
+					default:
+						// an activity, post or collection in the author's place would be displayed by its own name (for an activity: the
+						// name of whatever it points at), i.e. as an author that was never checked against the post's host
+						fail("author-not-an-actor", "post %s is displayed with an author entry of type %T (%s)", p.VerifID(), cr, wk.StripSGR(cr.Name()))
+						return
+					}
 					if a, ok := cr.(*pub.Actor); ok {
 						if a.Identifier() == nil || a.Identifier().Host != p.VerifID().Host {
 							fail("foreign-author", "post %s is displayed with author %v from another host", p.VerifID(), a.Identifier())
